@@ -7,6 +7,7 @@ E == Rec[l]
 St(e) == e.args.st
 Expected(e) ==
   CASE e.op = "Duration.new" -> DurNew(e.args.dur)
+    [] e.op = "Duration.fromPartial" -> DurFromPartial(e.args.p)
     [] e.op = "Duration.negated" -> Ok(NegDur(e.args.recv))
     [] e.op = "Duration.abs" -> Ok(AbsDur(e.args.recv))
     [] e.op = "Duration.sign" -> Ok(DurSign(e.args.recv))
@@ -23,6 +24,7 @@ Matches(e) ==
 Bucket(D) == IF Le(Abs(DayTimeNs(D)), MulSmall(Pow10(18), 9)) THEN "below-2^63" ELSE "above-2^63"
 ClsOf(e) ==
   CASE e.op = "Duration.new" -> (IF SignUniform(e.args.dur) THEN "uniform" ELSE "mixed") \o (IF ValidDur(e.args.dur) THEN "/valid" ELSE "/invalid")
+    [] e.op = "Duration.fromPartial" -> IF DOMAIN e.args.p = {} THEN "empty" ELSE (IF SignUniform(FillDur(e.args.p)) THEN "uniform" ELSE "mixed") \o (IF ValidDur(FillDur(e.args.p)) THEN "/valid" ELSE "/invalid")
     [] e.op \in {"Duration.add", "Duration.subtract", "Duration.compare"} ->
          (IF HasCalendarUnits(e.args.recv) \/ HasCalendarUnits(e.args.other) THEN "calendar" ELSE "time/" \o Bucket(e.args.recv))
     [] e.op = "Duration.round" -> St(e).smallest \o "/" \o St(e).largest \o "/" \o (IF HasCalendarUnits(e.args.recv) THEN "calendar" ELSE RoundCls(DayTimeNs(e.args.recv), IncNs(St(e).inc, St(e).smallest)) \o "/" \o St(e).mode)
